@@ -85,6 +85,9 @@ func checkC04(ctx *Ctx, r *Report, tier string) {
 	checkClosingEdge(ctx, r)
 	checkOwnershipWithinSnap(ctx, r)
 	checkSquaredDistanceIsASumOfSquares(ctx, r)
+	checkSnapPerAxis(ctx, r)
+	checkUnclippedPiecesAreSnapped(ctx, r)
+	checkBoxDistanceBound(ctx, r)
 }
 
 var windingConvention = true // lower endpoint closed (set by W1 on the real function)
@@ -308,7 +311,7 @@ func checkLineOwnership(ctx *Ctx, r *Report) {
 	onLeft := Cmp("==", A(l+"[0].X"), A(box+".Min.X"))
 	nonNil := 0
 	okTop, okRight := true, true
-	usesMin := false
+	keptBottom, keptLeft := false, false
 	for _, alt := range ev.RootRets {
 		if _, isNil := alt.Val.(Nil); isNil {
 			continue
@@ -321,12 +324,15 @@ func checkLineOwnership(ctx *Ctx, r *Report) {
 		if !assume(c, map[string]bool{vert.Key(): true, onRight.Key(): true}).IsZero() {
 			okRight = false
 		}
-		for _, ca := range condAtoms(c) {
-			if ca.Key() == onBottom.Key() || ca.Key() == onLeft.Key() {
-				usesMin = true
-			}
+		// a segment on the bottom / left edge still has a way to be returned
+		if !assume(c, map[string]bool{horiz.Key(): true, onBottom.Key(): true, onTop.Key(): false}).IsZero() {
+			keptBottom = true
+		}
+		if !assume(c, map[string]bool{vert.Key(): true, onLeft.Key(): true, onRight.Key(): false}).IsZero() {
+			keptLeft = true
 		}
 	}
+	usesMin := !(keptBottom && keptLeft)
 	r.check("W3", "Box2.lineIntersect|returns-a-segment", fn.Pos(), nonNil >= 2, fmt.Sprintf("%d non-nil return paths", nonNil))
 	r.check("W3", "Box2.lineIntersect|horizontal-segment-on-the-top-edge-is-never-returned", fn.Pos(), okTop, "every non-nil return must be unreachable when the segment is horizontal and lies on Max.Y (it belongs to the box above)")
 	r.check("W3", "Box2.lineIntersect|vertical-segment-on-the-right-edge-is-never-returned", fn.Pos(), okRight, "every non-nil return must be unreachable when the segment is vertical and lies on Max.X (it belongs to the box to the right)")
@@ -494,6 +500,10 @@ func checkClipEndpoints(ctx *Ctx, r *Report) {
 	for _, e := range eventsOf(ev, ".Snap") {
 		for _, a := range e.Args {
 			if pt := pointTerms(a, 2); pt != nil {
+				// a snap of an end point itself (the segment inside the box) rebuilds nothing
+				if pt[0].Op == "a" && pt[1].Op == "a" && strings.HasPrefix(pt[0].S, paramName(fn, 1)+"[") && strings.HasPrefix(pt[1].S, paramName(fn, 1)+"[") {
+					break
+				}
 				cand = append(cand, pt...)
 				break
 			}
@@ -1295,4 +1305,181 @@ func checkSquaredDistanceIsASumOfSquares(ctx *Ctx, r *Report) {
 	leaves(t)
 	r.check("W16", "lineInfo.minDistance2|every-branch-returns-a-sum-of-squares", fn.Pos(), bad == "" && n >= 2, fmt.Sprintf("%d branches, each x·x + y·y or d·d (never a difference of squares);%s", n, bad))
 	r.floor("W16", 1)
+}
+
+// checkSnapPerAxis (W17): Box2.Snap moves each coordinate of a point onto the box edge it is
+// within tolerance of, the two axes independently: a clip point next to a box corner is an ulp
+// off in both. A chain of alternatives (`switch { case near Min.X: .. case near Min.Y: .. }`)
+// snaps one axis only; the point then fails Contains and the clipped piece is dropped. Decided
+// on the closed form: the result's Y does not depend on p.X (nor X on p.Y), and a coordinate
+// within tolerance of either edge comes out as that edge.
+func checkSnapPerAxis(ctx *Ctx, r *Report) {
+	fn := ctx.ssaFunc("sdf", "(*Box2).Snap")
+	if fn == nil {
+		r.undecided("W17", "Box2.Snap", 0, "not found")
+		return
+	}
+	ev := newEval(ctx)
+	res, _ := ev.evalRoot(fn)
+	out := pointTerms(res, 2)
+	if out == nil || len(fn.Params) < 3 {
+		r.undecided("W17", "Box2.Snap", fn.Pos(), "not a closed form")
+		return
+	}
+	box, p, delta := paramName(fn, 0), paramName(fn, 1), paramName(fn, 2)
+	bad := ""
+	for i, ax := range []string{"X", "Y"} {
+		other := []string{"Y", "X"}[i]
+		for _, a := range findSub(out[i], func(x *Term) bool { return x.Op == "a" }) {
+			if a.S == p+"."+other || strings.HasSuffix(a.S, ".Min."+other) || strings.HasSuffix(a.S, ".Max."+other) {
+				bad += " the snapped " + ax + " depends on " + a.S + ";"
+				break
+			}
+		}
+		for _, c := range []struct{ v, want float64 }{{0 + 4e-10, 0}, {0 - 4e-10, 0}, {1 - 4e-10, 1}, {1 + 4e-10, 1}, {0.5, 0.5}, {1 + 3e-9, 1 + 3e-9}} {
+			env := map[string]float64{box + ".Min.X": 0, box + ".Min.Y": 0, box + ".Max.X": 1, box + ".Max.Y": 1, delta: 1e-9,
+				p + "." + ax: c.v, p + "." + other: 4e-10}
+			got, ok := evalFloat(out[i], env)
+			if !ok {
+				bad += " " + ax + " is not a closed form of the point, the box and the tolerance;"
+				break
+			}
+			if got != c.want && len(bad) < 300 {
+				bad += fmt.Sprintf(" %s = %g (the other coordinate also near an edge) snaps to %g, expected %g;", ax, c.v, got, c.want)
+			}
+		}
+	}
+	r.check("W17", "Box2.Snap|each-axis-snapped-on-its-own", fn.Pos(), bad == "", "both coordinates are snapped, each by tests of its own value only;"+bad)
+	r.floor("W17", 1)
+}
+
+// checkBoxDistanceBound (W18): the distance search prunes a quadtree node when the squared
+// distance from the point to the node's box is not below the best so far; that box distance is
+// max(dx, 0)² + max(dy, 0)² with dx, dy the excess of |p − centre| over the half side - in
+// particular 0 on the boundary. An inclusive test (`dy <= 0` for "level with the box") gives
+// dx² to a point on the top edge and the node that touches the point is pruned.
+func checkBoxDistanceBound(ctx *Ctx, r *Report) {
+	fn := ctx.ssaFunc("sdf", "(*qtNode).minBoxDist2")
+	if fn == nil {
+		r.check("W18", "qtNode.minBoxDist2|is-the-distance-to-the-box", 0, true, "the search has no separate box distance (rule not applicable to this shape)")
+		r.floor("W18", 1)
+		return
+	}
+	ev := newEval(ctx)
+	res, _ := ev.evalRoot(fn)
+	t, _ := res.(*Term)
+	if t == nil {
+		r.undecided("W18", "qtNode.minBoxDist2", fn.Pos(), "not a scalar closed form")
+		return
+	}
+	node, p := paramName(fn, 0), paramName(fn, 1)
+	bad := ""
+	n := 0
+	for _, dx := range []float64{-1.5, 0, 2} {
+		for _, dy := range []float64{-0.5, 0, 3} {
+			for _, sx := range []float64{1, -1} {
+				env := map[string]float64{node + ".center.X": 10, node + ".center.Y": -4, node + ".halfSide": 5,
+					p + ".X": 10 + sx*(5+dx), p + ".Y": -4 + (5 + dy)}
+				got, ok := evalFloat(t, env)
+				if !ok {
+					bad = " not a closed form of the point, the centre and the half side: " + shortKey(t.Key(), 120) + ";"
+					break
+				}
+				n++
+				want := math.Max(dx, 0)*math.Max(dx, 0) + math.Max(dy, 0)*math.Max(dy, 0)
+				if math.Abs(got-want) > 1e-12 && len(bad) < 300 {
+					bad += fmt.Sprintf(" excess (%g, %g): %g, expected %g;", dx, dy, got, want)
+				}
+			}
+		}
+	}
+	r.check("W18", "qtNode.minBoxDist2|is-the-distance-to-the-box", fn.Pos(), bad == "" && n > 0, fmt.Sprintf("max(dx,0)² + max(dy,0)² on %d placements, the boundary among them;%s", n, bad))
+	r.floor("W18", 1)
+}
+
+// checkUnclippedPiecesAreSnapped (W19): the pieces lineIntersect cuts have their end points snapped
+// onto the box edges; a segment that lies inside the box is returned without cutting and has to
+// be snapped as well. Otherwise, of the edges meeting at a vertex an ulp above a split line (the
+// centre of the scaled bounding square is rounded: ordinary outlines have such vertices), those
+// cut by the line end on it and those returned whole end an ulp above it; a query level with the
+// line sees one crossing and not its partner, and the sign is wrong along the whole level.
+// Decided on the closed form: for a segment inside the unit box with one end within tolerance
+// of an edge, the piece returned has that end on the edge.
+func checkUnclippedPiecesAreSnapped(ctx *Ctx, r *Report) {
+	fn := ctx.ssaFunc("sdf", "(*Box2).lineIntersect")
+	if fn == nil {
+		r.undecided("W19", "Box2.lineIntersect", 0, "not found")
+		return
+	}
+	snaps := false
+	allInstrs(fn, func(_ *ssa.BasicBlock, ins ssa.Instruction) {
+		if c, ok := ins.(*ssa.Call); ok {
+			if g := c.Call.StaticCallee(); g != nil && strings.HasPrefix(g.Name(), "Snap") {
+				snaps = true
+			}
+		}
+	})
+	if !snaps {
+		r.check("W19", "Box2.lineIntersect|pieces-inside-the-box-are-snapped-too", fn.Pos(), true, "the clipper does not snap candidate points (rule not applicable to this shape)")
+		r.floor("W19", 1)
+		return
+	}
+	ev := newEval(ctx, "tAppend")
+	ev.evalRoot(fn)
+	box, l := paramName(fn, 0), paramName(fn, 1)
+	bad := ""
+	n := 0
+	for _, c := range []struct {
+		ax, other string
+		end       int
+		v, want   float64
+	}{{"Y", "X", 0, 4e-10, 0}, {"Y", "X", 1, 1 - 4e-10, 1}, {"X", "Y", 0, 4e-10, 0}, {"X", "Y", 1, 1 - 4e-10, 1}, {"Y", "X", 0, 0.25, 0.25}} {
+		env := map[string]float64{box + ".Min.X": 0, box + ".Min.Y": 0, box + ".Max.X": 1, box + ".Max.Y": 1}
+		for e := 0; e < 2; e++ {
+			env[fmt.Sprintf("%s[%d].%s", l, e, c.ax)] = 0.3 + 0.4*float64(e)
+			env[fmt.Sprintf("%s[%d].%s", l, e, c.other)] = 0.2 + 0.5*float64(e)
+		}
+		env[fmt.Sprintf("%s[%d].%s", l, c.end, c.ax)] = c.v
+		decided := false
+		for _, alt := range ev.RootRets {
+			if alt.Cond == nil {
+				continue
+			}
+			cv, ok := evalFloat(alt.Cond, env)
+			if !ok || cv == 0 {
+				continue
+			}
+			decided = true
+			if _, isNil := alt.Val.(Nil); isNil {
+				bad += fmt.Sprintf(" a segment inside the box (end %d at %s = %g) is given up;", c.end, c.ax, c.v)
+				break
+			}
+			obj, okO := resultObject(alt.Val, alt.State)
+			if !okO {
+				// the argument itself is returned: its end points are what they were
+				if c.want != c.v {
+					bad += fmt.Sprintf(" end %d at %s = %g (within tolerance of the edge %g) is returned as it is;", c.end, c.ax, c.v, c.want)
+				}
+				break
+			}
+			m := map[string]*Term{}
+			leafTerms("", obj, m)
+			t := m[fmt.Sprintf("[%d].%s", c.end, c.ax)]
+			got, okV := 0.0, false
+			if t != nil {
+				got, okV = evalFloat(t, env)
+			}
+			if !okV || got != c.want {
+				bad += fmt.Sprintf(" end %d at %s = %g comes back as %g, expected %g;", c.end, c.ax, c.v, got, c.want)
+			}
+			break
+		}
+		if decided {
+			n++
+		} else {
+			bad += " no return path could be evaluated for a segment inside the box;"
+		}
+	}
+	r.check("W19", "Box2.lineIntersect|pieces-inside-the-box-are-snapped-too", fn.Pos(), bad == "" && n > 0, fmt.Sprintf("%d segments inside the unit box, an end within tolerance of each edge in turn;%s", n, bad))
+	r.floor("W19", 1)
 }
